@@ -376,3 +376,10 @@ Theorem C02_sheet_is_sag_sheet :
        (Rc - (1 + k) * pz)%R = (Rc * sqrt (1 - (1 + k) * (px * px + py * py) / (Rc * Rc)))%R.
 Proof. exact sheet_is_sag_sheet. Qed.
 Print Assumptions C02_sheet_is_sag_sheet.
+
+Theorem C02_conic_distance_nonneg :
+  forall k N L M z x y Rc t : R,
+       Standard.k_std_distance XOps (Fin k) (Fin N) (Fin L) (Fin M) (Fin z)
+         (Fin x) (Fin y) (Fin Rc) = Fin t -> (0 <= t)%R.
+Proof. exact conic_distance_nonneg. Qed.
+Print Assumptions C02_conic_distance_nonneg.
